@@ -9,6 +9,7 @@
    fuel, under a fault-free writer -- all commands, including call (all data
    forms, value and content params), msg/plural, css, log, foreach/ifempty,
    switch, if, let, print. *)
+From Soy Require Import Proofs.SourceTieScope.
 From Soy Require Import Model.Bytes Model.Num Model.Values Model.Outcome Model.Ast
   Model.Escape Model.Interp Spec.Cmd Proofs.ScopeRel Proofs.ScopeProofs Proofs.ScopeSpecProofs.
 Open Scope N_scope.
